@@ -22,17 +22,27 @@ struct cpu *g_oldcpu, *g_newcpu;   /* harness: the thread's CPU; the CPU the eve
 struct thread *g_rt;               /* harness: the thread that migrates (NULL: remote thread not found) */
 static inline int logged_cpu_migrate_thread(struct cpu *cpu, struct thread *thread, struct cpu *newcpu)
 {
-	/* semantic no-ops that hand symex the harness's own pointers instead of
-	 * values read back through the CPU table / returned by a contract */
-	if (cpu == g_oldcpu) cpu = g_oldcpu;
-	if (newcpu == g_newcpu) newcpu = g_newcpu;
-	if (thread == g_rt) thread = g_rt;
-	int r = (cpu_migrate_thread)(cpu, thread, newcpu);
+	/* hand symex the harness's own pointers instead of values read back
+	 * through the CPU table or returned by a replaced contract (which may name
+	 * several 50 KB objects); that they are the same pointers is asserted */
+	__CPROVER_assert(cpu == g_oldcpu && thread == g_rt && newcpu == g_newcpu,
+		"ghosts g_oldcpu, g_rt, g_newcpu name the arguments of the migration");
+	__CPROVER_assume(cpu == g_oldcpu && thread == g_rt && newcpu == g_newcpu);
+	int r = (cpu_migrate_thread)(g_oldcpu, g_rt, g_newcpu);
 	g_mig_cpu = cpu; g_mig_th = thread; g_mig_new = newcpu; g_mig_ret = r;
 	g_mig_n++;
 	return r;
 }
 #define cpu_migrate_thread(c, t, n) logged_cpu_migrate_thread((c), (t), (n))
+/* same for thread_migrate_cpu (its effect is visible in th->cpu and the channel log) */
+static inline int named_thread_migrate_cpu(struct thread *th, struct cpu *cpu)
+{
+	__CPROVER_assert(th == g_rt && cpu == g_newcpu,
+		"ghosts g_rt, g_newcpu name the arguments of thread_migrate_cpu");
+	__CPROVER_assume(th == g_rt && cpu == g_newcpu);
+	return (thread_migrate_cpu)(g_rt, g_newcpu);
+}
+#define thread_migrate_cpu(t, c) named_thread_migrate_cpu((t), (c))
 #define MIG_CALL_FRAME g_mig_n, g_mig_cpu, g_mig_new, g_mig_th, g_mig_ret
 
 #include "ovni/event.c"             /* the real /repo/src/emu/ovni/event.c */
@@ -113,7 +123,10 @@ static void mk_emu(void)
 	struct emu_ev *ev = xalloc(sizeof(struct emu_ev));
 	g_emu->ev = ev;
 	__CPROVER_assume(ev->payload_size <= 0x100000UL);
-	ev->payload = (ev->payload_size == 0) ? NULL : xalloc(ev->payload_size);
+	/* the payload lies inside a struct ovni_ev of the stream: the object is at
+	 * least a whole union (CBMC checks p->i32[0] against sizeof(*p)) */
+	ev->payload = (ev->payload_size == 0) ? NULL :
+		xalloc(ev->payload_size < sizeof(union ovni_ev_payload) ? sizeof(union ovni_ev_payload) : ev->payload_size);
 	g_loom = xalloc(sizeof(struct loom));
 	g_emu->loom = g_loom;
 	__CPROVER_assume(g_loom->ncpus <= 0x7fffffffUL);          /* LOOM_CPUS_WF */
@@ -178,7 +191,7 @@ static void mk_thread_and_cpus(struct thread *th, int idx)
 static void name_neighbours(struct thread *th, int idx)
 {
 	g_oldcpu = (th != NULL) ? th->cpu : NULL;
-	g_newcpu = (idx == -1) ? &g_loom->vcpu : g_cell;
+	g_newcpu = (C05_SCEN == 1 || C05_SCEN == 3) ? &g_loom->vcpu : (C05_SCEN == 0 && idx == -1) ? &g_loom->vcpu : g_cell;
 	g_nb_next = (th != NULL) ? th->cpu_next : NULL;
 	g_nb_prev = (th != NULL) ? th->cpu_prev : NULL;
 	g_o_head = (g_oldcpu != NULL) ? g_oldcpu->threads : NULL;
@@ -330,17 +343,15 @@ void h_pre_affinity_remote(void)
 	mk_emu();
 	g_idx = pick_index();
 	g_tid = nondet_int();
-	/* what the lookups find: nothing, or a thread (the same one or two) */
-	g_pf = nondet_bool() ? NULL : new_thread();
-	switch (nondet_int()) {
-	case 0: g_lf = NULL; break;
-	case 1: g_lf = g_pf; break;
-	default: g_lf = new_thread(); break;
-	}
-	g_rt = (g_pf != NULL) ? g_pf : g_lf;
-	if (g_rt != NULL)
-		mk_thread_and_cpus(g_rt, g_idx);
-	else
+	/* what the lookups find: each of them nothing or the thread T (a second
+	 * thread found in the loom while the process lookup succeeds is never
+	 * looked at: loom_find_thread is then not called) */
+	struct thread *T = new_thread();
+	g_pf = nondet_bool() ? T : NULL;
+	g_lf = nondet_bool() ? T : NULL;
+	g_rt = (g_pf != NULL || g_lf != NULL) ? T : NULL;
+	mk_thread_and_cpus(T, g_idx);
+	if (g_rt == NULL)
 		g_cell = NULL;
 	name_neighbours(g_rt, g_idx);
 	chan_cb_t keep = stub_dirty_cb; (void) keep;
